@@ -234,7 +234,7 @@ def facet_histories(facet, rng, quick):
     n = len(alpha)
     idx = [list(t) for t in itertools.product(range(n), repeat=2)]
     triples = [list(t) for t in itertools.product(range(n), repeat=3)]
-    cap = 16 if quick else 600
+    cap = 16 if quick else 300
     if len(triples) > cap:
         triples = [triples[i] for i in rng.choice(len(triples), size=cap, replace=False)]
     idx += triples
@@ -501,7 +501,9 @@ def run(ctx):
                         'and all/sampled triples over further alphabets per group of parameters a cache key must distinguish: '
                         'regulariser spellings and strengths, sizes/degrees/orders/parities on disk with the memory caches dropped '
                         'between the calls, radii without data (ring of zero weights, rmax beyond the corners) x direction x '
-                        'regularisation, out x origin x parity in a frame of height 2 rmax + 1) + random op '
+                        'regularisation, out x origin x parity in a frame of height 2 rmax + 1; spellings that must not be identified: '
+                        'permutations of linbasex orders / angles (x list / tuple / array spellings, which may be), step, clip, daun degree, dasch '
+                        'method, basex sigma, rbasex order / odd / rmax, each in memory and on disk) + random op '
                         'lists of calls / cache_cleanup / basis_dir_cleanup / set_basis_dir / appearing and disappearing '
                         'files / in-place weight changes over the parameter lattice of each module (n <= 14)',
                    samples=samples, input_distribution=dist, exhaustive=False,
